@@ -17,7 +17,8 @@
 (***************************************************************************)
 EXTENDS Integers, Sequences, FiniteSets, TLC
 
-CONSTANTS MapVars, KeysCapturedByValue
+CONSTANTS MapVars, KeysCapturedByValue,
+          KeysCapturedDeep     \* FALSE: named deviation - only the top level of a key array is copied, inner arrays stay aliased
 
 None == [t |-> "none"]
 Nil == [t |-> "nil"]
@@ -34,17 +35,27 @@ KeyEq(a, b) ==
     ELSE IF a.t = "a" THEN Len(a.a) = Len(b.a) /\ \A i \in 1..Len(a.a) : KeyEq(a.a[i], b.a[i])
     ELSE a = b
 
-\* a key operand: literal tree, or the current contents of the array variable k
-KeyOf(st, key) == IF key.k = "kvar" THEN ArrT(st.karr) ELSE key.v
+\* the array variable k may hold the inner array variable j as an element: [t |-> "jref"] stands for
+\* "the array j" and is resolved against j's current contents
+JRef == [t |-> "jref"]
+RECURSIVE Res(_, _)
+Res(jarr, t) == IF t.t = "jref" THEN ArrT(jarr)
+                ELSE IF t.t = "a" THEN ArrT([i \in 1..Len(t.a) |-> Res(jarr, t.a[i])])
+                ELSE t
 
-\* stored keys: [tree |-> t, live |-> BOOLEAN]; a live key follows karr (deviation only)
-KeyTree(st, sk) == IF sk.live THEN ArrT(st.karr) ELSE sk.tree
+\* a key operand: literal tree, or the current contents of the array variable k
+KeyOf(st, key) == IF key.k = "kvar" THEN Res(st.jarr, ArrT(st.karr)) ELSE key.v
+
+\* stored keys: [tree |-> t, live |-> BOOLEAN]; a live key follows karr, a stored tree that still contains
+\* a jref follows j (deviations only)
+KeyTree(st, sk) == IF sk.live THEN Res(st.jarr, ArrT(st.karr)) ELSE Res(st.jarr, sk.tree)
 Entries(st, m) == { <<KeyTree(st, e[1]), e[2]>> : e \in st.maps[m] }
 Lookup(st, m, kt) == { e \in st.maps[m] : KeyEq(KeyTree(st, e[1]), kt) }
 HasKey(st, m, kt) == Lookup(st, m, kt) # {}
 
 Stored(st, key) ==
     IF key.k = "kvar" /\ ~KeysCapturedByValue THEN [tree |-> Nil, live |-> TRUE]
+    ELSE IF key.k = "kvar" /\ ~KeysCapturedDeep THEN [tree |-> ArrT(st.karr), live |-> FALSE]
     ELSE [tree |-> KeyOf(st, key), live |-> FALSE]
 
 SetEntry(st, m, key, val) ==
@@ -75,8 +86,10 @@ Apply(st, op) ==
       [] op.op = "copy" -> [st EXCEPT !.maps[op.m] = st.maps[op.src], !.ret = None]
       [] op.op = "newk" -> [st EXCEPT !.karr = op.elems, !.ret = None]     \* k = [..] (fresh array)
       [] op.op = "mutk" -> [st EXCEPT !.karr = Append(st.karr, Num(9)), !.ret = None] \* k pushBack 9
+      [] op.op = "newkj" -> [st EXCEPT !.karr = <<JRef, Num(0)>>, !.ret = None]         \* k = [j, 0] (fresh outer array holding j)
+      [] op.op = "mutj" -> [st EXCEPT !.jarr = Append(st.jarr, Num(9)), !.ret = None]   \* j pushBack 9
 
-InitState == [maps |-> [m \in MapVars |-> {}], karr |-> <<>>, ret |-> None]
+InitState == [maps |-> [m \in MapVars |-> {}], karr |-> <<>>, jarr |-> <<Num(3)>>, ret |-> None]
 
 \* Observation: every map as a set of <<keyTree, valueTree>>, and the returned value
 Obs(st) == [maps |-> [m \in MapVars |-> Entries(st, m)], ret |-> st.ret]
@@ -88,7 +101,7 @@ MapIsDict(st) == \A m \in MapVars : \A e1, e2 \in st.maps[m] :
                     KeyEq(KeyTree(st, e1[1]), KeyTree(st, e2[1])) => e1 = e2
 \* mutation of an array that was used as key neither loses nor changes an entry
 KeyCapturedByValue(st, op, st2) ==
-    op.op = "mutk" => \A m \in MapVars : Entries(st2, m) = Entries(st, m)
+    op.op \in {"mutk", "mutj"} => \A m \in MapVars : Entries(st2, m) = Entries(st, m)
 \* a copy is independent of the original: operations on one map leave all others alone
 CopyIndependent(st, op, st2) ==
     op.op \in {"set", "del", "fromArray", "create", "copy"} =>
